@@ -5,6 +5,7 @@ import Req.Client.RespHeader
 import Req.Client.Sniff
 import Req.Client.PrefixCode
 import Req.Client.DecodePath
+import Req.Client.HtmlSpec
 /-!
 Driver lanes of C15.
 
@@ -23,6 +24,8 @@ the `<tbl>` argument: `in=out;in=out…`, hex, sent by the harness from x/text).
   `D<i>` Disable, `E<i>` Enable, `A<i>` SetAutoDecodeAllContentType, `N<i>` SetAutoDecodeContentTypeFunc(nil),
   `F<i>:<0|1>` a custom function (its verdict on this content type), `L<i>:<hexlist>`
   SetAutoDecodeContentType(list), `C<i>` Clone of member `i`.
+* `c15out …as c15read…` / `c15outp …as c15readp…` — the same, answer reduced to `<hex of everything returned> <eof|…>` (lane
+  `e2e`: responses whose outcome the theorems make independent of the network split; the installed reader is not observable there).
 * `c15cfg <prog> <use> <grid>` — the selection alone, over a grid of responses: `grid` =
   `,`-joined `<content-type hex>/<ae hex>/<mp>/<lk>` entries (`lk` = a decoder id, or `W:<ok|nil|err>`: WHATWG table of the model, then what ianaindex says); in `prog` a custom function may also be named
   (`G<i>:<k>`, the harness' three fixed functions: suffix `+verif`, even length, contains `charset`).
@@ -37,6 +40,10 @@ the `<tbl>` argument: `in=out;in=out…`, hex, sent by the harness from x/text).
   sniffed bytes instead of looking the verdict up in a table stated by the harness.
 * `c15findc <content>` — `FindEncoding` with the concrete scanner: `none` or the canonical name (hex) of the
   encoding whose decoder is applied.
+* `c15spec cmt <text>` — the WHATWG comment rule stated on the text (`Req.Prescan.commentEndAt`, no automaton): `open` or
+  `closed <k>`, the length of the shortest prefix of the text after `<!--` that closes the comment;
+  `c15spec raw <name> <text>` — the RCDATA / RAWTEXT end-tag rule (`Req.Prescan.rawSplit`): `open` or `closed <offset of the '<' of
+  the first end tag>`.
 * `c15label <label>` — `htmlcharset.Lookup(label)`: canonical name (hex) or `none`; `c15labels` — the
   `,`-joined hex list of all labels of the model's table.
 * `c15mb <singles> <pairs> <chunks>` — the generic double-byte prefix code (`dbcsCode`) over tables stated by the
@@ -125,6 +132,23 @@ def laneFindC : List String → String
       | none => "none"
       | some d => encodeHex (d.decodeAll [])
     | none => "bad-op"
+  | _ => "bad-op"
+
+def laneSpec : List String → String
+  | ["cmt", t] =>
+    match decodeHex t with
+    | some t =>
+      match Req.Prescan.commentEndAt t with
+      | some k => s!"closed {k}"
+      | none => "open"
+    | none => "bad-op"
+  | ["raw", tag, t] =>
+    match decodeHex tag, decodeHex t with
+    | some tag, some t =>
+      match Req.Prescan.rawSplit tag t with
+      | some (_, rest) => s!"closed {t.length - rest.length - tag.length - 3}"
+      | none => "open"
+    | _, _ => "bad-op"
   | _ => "bad-op"
 
 def laneLabel : List String → String
@@ -478,12 +502,21 @@ def laneFind : List String → String
     r.getD "bad-op"
   | _ => "bad-op"
 
+/-- the first two words of an answer -/
+def firstTwo (s : String) : String :=
+  match s.splitOn " " with
+  | a :: b :: _ => a ++ " " ++ b
+  | _ => s
+
 def lanes : List (String × (List String → String)) := [
+  ("c15out", fun a => firstTwo (laneRead a)),
+  ("c15outp", fun a => firstTwo (laneReadP a)),
   ("c15read", laneRead),
   ("c15readp", laneReadP),
   ("c15cfg", laneCfg),
   ("c15hdrs", laneHdrs),
   ("c15findc", laneFindC),
+  ("c15spec", laneSpec),
   ("c15mb", laneMb),
   ("c15gbk", laneGbk),
   ("c15label", laneLabel),
